@@ -483,8 +483,10 @@ def hexdump (data):
   """
   Converts raw data to a hex dump
   """
-  if isinstance(data, (str,bytes)):
+  if isinstance(data, str):
     data = [ord(c) for c in data]
+  elif isinstance(data, (bytes,bytearray)):
+    data = list(data)
   o = ""
   def chunks (data, length):
     return (data[i:i+length] for i in range(0, len(data), length))
